@@ -2219,7 +2219,8 @@ class AppFn(ModFn):
         body = [s for s in self.node.body if not (isinstance(s, ast.Expr) and isinstance(s.value, ast.Constant))]
         self.ann = {}
         self.pure = False
-        if len(body) == 1 and isinstance(body[0], ast.Return) and not self.fuel and (not isinstance(body[0].value, ast.Call) or self.module_call(body[0].value) is None):
+        if len(body) == 1 and isinstance(body[0], ast.Return) and not self.fuel and (not isinstance(body[0].value, ast.Call) or self.module_call(body[0].value) is None) \
+           and self.hoist(body[0]) is None:
             c, t, g = self.expr(body[0].value, set())
             self.pure = not g and t != QT
 
@@ -2244,6 +2245,8 @@ class AppFn(ModFn):
 
 
 class AppTranslator:
+    FN = None
+    HEADER_EXTRA = []
     """graph and orbit applications: common/get_graph.py, application/otoc.py, fourpoint.py, charges.py and the read-only graph methods of
     PauliStringCollection / PauliString they rest on"""
     def __init__(self, repo):
@@ -2311,6 +2314,7 @@ class AppTranslator:
                "Definition unopt (o : option pstr) : pstr := match o with Some p => p | None => [] end.",
                "Definition set_add (x : pstr) (s : list pstr) : list pstr := if memS x s then s else x :: s.",
                "Definition coll_append (l : list pstr) (p : pstr) : list pstr := gens (fst (step true {| gens := l; cache := None |} (Append p))).", ""]
+        out = out[:-1] + list(self.HEADER_EXTRA) + [""]
         for where, name, cls, sp, variants, dflt in self.WANT:
             fam = {"spec": sp if variants[0][0] in ("true", "false") else None, "default": dflt, "fns": {}}
             for mode, key, coq in variants:
@@ -2327,10 +2331,14 @@ class AppTranslator:
                     names = [x.arg for x in a.args]; i = names.index(sp); di = i - (len(a.args) - len(a.defaults))
                     if di < 0: raise Unsupported("%s: parameter %s has no default" % (name, sp))
                     dv = a.defaults[di]
-                    okd = (isinstance(dv, ast.Constant) and ((mode in ("none",) and dv.value is None) or (mode in ("true", "false") and (dv.value is True) == (dflt == "true") and isinstance(dv.value, bool))))
+                    okd = (isinstance(dv, ast.Constant) and ((mode in ("none", "some") and dv.value is None) or (mode in ("true", "false") and (dv.value is True) == (dflt == "true") and isinstance(dv.value, bool))))
                     if not okd: raise Unsupported("%s: default of %s changed" % (name, sp))
-                    del a.args[i]; del a.defaults[di]
-                f = AppFn(self, node, cls if cls else None, coq, drop, orig)
+                    if mode == "some":      # the argument is always passed: the parameter stays, without its default
+                        del a.defaults[di]; drop = ()
+                        a.args[i].annotation = ast.parse("list[PauliString]", mode="eval").body
+                    else:
+                        del a.args[i]; del a.defaults[di]
+                f = (self.FN or AppFn)(self, node, cls if cls else None, coq, drop, orig) if name != "find_generators_with_connection" else self.FN(self, node, cls, coq, drop, orig, oracle=True)
                 fam["fns"][key] = f
                 self.families[(cls, name)] = fam
                 out.append(f.emit()); out.append("")
@@ -2679,12 +2687,200 @@ class LinTranslator:
         return "\n".join(out)
 
 
+class OptFn(AppFn):
+    """the optimiser of common/pauli_string_collection.py (list_connections, _get_delta, find_generators_with_connection) and
+    PauliString.get_anti_commutants, on lists of Pauli strings.  Further contracts: c.copy() is PauliStringCollection(c.generators) (pinned);
+    c.contract(x, y) on a local collection is the model's Contract transition (Refine/CollRefine.gen_c_contract proves that of the source),
+    ValueError on unequal lengths; `self.copy().get_canonic_vertices()` — the canonical vertices of the classification — is an INPUT of the
+    translated function (parameter cv): nothing is assumed about it; random.randint(a, b) reads the next element of an input stream
+    (parameter rand_; a value outside [a, b] leaves the model, an exhausted stream is OutOfFuel); abs on ints; t[i] with a literal i on a tuple."""
+    def __init__(self, tr, node, cls, coq, drop=(), orig=None, oracle=False):
+        AppFn.__init__(self, tr, node, cls, coq, drop, orig)
+        self.uses_rand = any(isinstance(x, ast.Call) and isinstance(x.func, ast.Name) and x.func.id == "randint" for x in ast.walk(node))
+        self.oracle = oracle
+        if oracle: self.params["cv_"] = CL
+        if self.uses_rand:
+            self.params["rand_"] = T_list(Z); self.vars["rand_"] = T_list(Z); self.reassigned.append("rand_")
+        self.gpure = None
+
+    @staticmethod
+    def proj(i, n, c):
+        """component i of an n-tuple ((a, b), c), d ..."""
+        for _ in range(n - 1 - i): c = "(fst %s)" % c
+        return "(snd %s)" % c if i > 0 else c
+
+    def expr_extra(self, e, env):
+        if isinstance(e, ast.Constant) and e.value is True: return "true", B, []
+        if isinstance(e, ast.Call):
+            f = e.func
+            src = ast.unparse(e)
+            if src == "self.copy().get_canonic_vertices()" and self.oracle: return "v_cv_", CL, []
+            if isinstance(f, ast.Name) and f.id == "abs" and len(e.args) == 1 and not e.keywords:
+                c, t, g = self.expr(e.args[0], env)
+                if t != Z: bad(e, "abs of %r" % (t,))
+                return "(Z.abs %s)" % c, Z, g
+            if isinstance(f, ast.Attribute) and f.attr == "copy" and not e.args and not e.keywords:
+                c, t, g = self.expr(f.value, env)
+                if t == CL: return "(gens (mk %s))" % c, CL, g
+        if isinstance(e, ast.Subscript) and not isinstance(e.slice, ast.Slice):
+            c, t, g = self.expr(e.value, env)
+            if isinstance(t, tuple) and t[0] == "tuple":
+                if not (isinstance(e.slice, ast.Constant) and isinstance(e.slice.value, int) and 0 <= e.slice.value < len(t[1])): bad(e, "tuple index must be a literal in range")
+                return self.proj(e.slice.value, len(t[1]), c), t[1][e.slice.value], g
+            if isinstance(t, tuple) and t[0] == "list" and t not in (T_list(PS),):
+                ic, it_, ig = self.expr(e.slice, env)
+                if it_ != Z: bad(e, "index must be int")
+                return "(list_get %s %s %s)" % (default(t[1], self.tr.enums), c, ic), t[1], g + ig + [("(idx_ok %s %s)" % (c, ic), "Raised EIndex")]
+        if isinstance(e, ast.ListComp) and isinstance(e.generators[0].target, ast.Tuple):
+            # [elt for x, y in <pairs> if cond]: filter then map, guards of cond on all pairs, guards of elt on the pairs kept
+            if len(e.generators) != 1 or e.generators[0].is_async or not all(isinstance(x, ast.Name) for x in e.generators[0].target.elts): bad(e, "list comprehension shape")
+            gen = e.generators[0]
+            names = [x.id for x in gen.target.elts]
+            it, tit, git = self.expr(gen.iter, env)
+            if tit[0] != "list" or tit[1][0] != "tuple" or len(tit[1][1]) != len(names): bad(e, "comprehension over %r" % (tit,))
+            saved = [(n_, self.vars.get(n_)) for n_ in names]
+            for n_, t_ in zip(names, tit[1][1]): self.vars[n_] = t_
+            try:
+                conds = [self.truthy(i_, env | set(names)) for i_ in gen.ifs]
+                c, t, g = self.expr(e.elt, env | set(names))
+            finally:
+                for n_, t_ in saved:
+                    if t_ is None: del self.vars[n_]
+                    else: self.vars[n_] = t_
+            bind = "fun it_ => let '(%s) := it_ in " % ", ".join("v_" + n_ for n_ in names)
+            src_l, gs = it, list(git)
+            for cc, cg, _ in conds:
+                gs += [("(forallb (%s%s) %s)" % (bind, gb, src_l), o) for gb, o in cg]
+                src_l = "(filter (%s%s) %s)" % (bind, cc, src_l)
+            gs += [("(forallb (%s%s) %s)" % (bind, gb, src_l), o) for gb, o in g]
+            return "(map (%s%s) %s)" % (bind, c, src_l), T_list(t), gs
+        if isinstance(e, ast.Call):
+            r = self.resolve(e)
+            if r is not None and getattr(r[0], "gpure", None) is not None:
+                args, fn = self.method_call(e)
+                return "(%s_val %s)" % (fn.coq, args), fn.ret, list(self._call_guards) + [("(%s_ok %s)" % (fn.coq, args), fn.gpure)]
+        return AppFn.expr_extra(self, e, env)
+
+    def hoist(self, s):
+        h = AppFn.hoist(self, s)
+        if h is not None: return h
+        # a raising call as an operand of an arithmetic expression / as the iterable of a loop: evaluated first when nothing before it can raise
+        def first_call(v):
+            for sub in ast.iter_child_nodes(v):
+                if isinstance(sub, ast.Call):
+                    r = self.resolve(sub)
+                    if r is not None and not r[0].pure and getattr(r[0], "gpure", None) is None: return sub
+                if isinstance(sub, (ast.BinOp, ast.UnaryOp)):
+                    x = first_call(sub)
+                    if x is not None: return x
+                elif not isinstance(sub, (ast.Name, ast.Constant, ast.operator, ast.unaryop, ast.expr_context)):
+                    return None
+            return None
+        if isinstance(s, (ast.Return, ast.Assign)) and isinstance(s.value, ast.BinOp):
+            c = first_call(s.value)
+            if c is not None:
+                self.hcount = getattr(self, "hcount", 0) + 1
+                nm = "h%d_" % self.hcount
+                class Rep(ast.NodeTransformer):
+                    def visit_Call(self_, n):
+                        return ast.copy_location(ast.Name(id=nm, ctx=ast.Load()), n) if n is c else self_.generic_visit(n)
+                first = ast.copy_location(ast.Assign(targets=[ast.Name(id=nm, ctx=ast.Store())], value=c), s)
+                import copy as _copy
+                # (the transformer works in place: on a deep copy in which the call is found again by position)
+                s2 = _copy.deepcopy(s)
+                path = []
+                def find(v, tgt, acc):
+                    if v is tgt: path.extend(acc); return True
+                    for fld, val in ast.iter_fields(v):
+                        if isinstance(val, ast.AST) and find(val, tgt, acc + [fld]): return True
+                    return False
+                find(s.value, c, [])
+                parent, node_ = None, s2.value
+                for fld in path: parent, node_ = (node_, fld), getattr(node_, fld)
+                setattr(parent[0], parent[1], ast.copy_location(ast.Name(id=nm, ctx=ast.Load()), c))
+                return [first, ast.fix_missing_locations(s2)]
+        if isinstance(s, ast.For) and isinstance(s.iter, ast.Call):
+            r = self.resolve(s.iter)
+            if r is not None and not r[0].pure:
+                self.hcount = getattr(self, "hcount", 0) + 1
+                nm = "h%d_" % self.hcount
+                first = ast.copy_location(ast.Assign(targets=[ast.Name(id=nm, ctx=ast.Store())], value=s.iter), s)
+                s2 = ast.copy_location(ast.For(target=s.target, iter=ast.Name(id=nm, ctx=ast.Load()), body=s.body, orelse=s.orelse), s)
+                return [first, ast.fix_missing_locations(s2)]
+        return None
+
+    def block(self, stmts, env, k):
+        if stmts:
+            s, rest = stmts[0], stmts[1:]
+            # x = randint(a, b)
+            if isinstance(s, ast.Assign) and len(s.targets) == 1 and isinstance(s.targets[0], ast.Name) and isinstance(s.value, ast.Call) \
+               and isinstance(s.value.func, ast.Name) and s.value.func.id == "randint" and len(s.value.args) == 2 and not s.value.keywords:
+                x = s.targets[0].id
+                a, ta, ga = self.expr(s.value.args[0], env); b, tb, gb = self.expr(s.value.args[1], env)
+                if ta != Z or tb != Z or ga or gb: bad(s, "randint arguments")
+                self.declare(x, Z, s)
+                return "(match v_rand_ with [] => OutOfFuel | r_ :: tl_ => if (%s <=? r_) && (r_ <=? %s) then (let v_%s := r_ in let v_rand_ := tl_ in %s) else NonInt end)" % (
+                    a, b, x, self.block(rest, env | {x}, k))
+            # c.contract(x, y) on a local collection
+            if isinstance(s, ast.Expr) and isinstance(s.value, ast.Call) and isinstance(s.value.func, ast.Attribute) and s.value.func.attr == "contract" \
+               and isinstance(s.value.func.value, ast.Name) and len(s.value.args) == 2 and not s.value.keywords:
+                c = s.value.func.value.id
+                if c not in env or self.vars.get(c) != CL or c in self.params: bad(s, "contract on something that is not a local collection")
+                x, tx, gx = self.expr(s.value.args[0], env); y, ty, gy = self.expr(s.value.args[1], env)
+                if tx != PS or ty != PS: bad(s, "contract arguments")
+                return self.guard(gx + gy + [("(Nat.eqb (length %s) (length %s))" % (x, y), VERR)],
+                                  "(let v_%s := (coll_contract v_%s %s %s) in %s)" % (c, c, x, y, self.block(rest, env, k)))
+            if isinstance(s, ast.For) and isinstance(s.target, ast.Name) and isinstance(s.iter, ast.Name) and s.iter.id in env \
+               and isinstance(self.vars.get(s.iter.id), tuple) and self.vars[s.iter.id][0] == "list":
+                return Fn.block(self, stmts, env, k)
+        return AppFn.block(self, stmts, env, k)
+
+    def emit(self):
+        self.prepare()
+        body = [s for s in self.node.body if not (isinstance(s, ast.Expr) and isinstance(s.value, ast.Constant))]
+        if not self.pure and len(body) == 1 and isinstance(body[0], ast.Return) and not self.fuel and self.resolve(body[0].value) is None and self.hoist(body[0]) is None:
+            c, t, g = self.expr(body[0].value, set())
+            outs = {o for _, o in g}
+            if g and len(outs) == 1:
+                o = outs.pop()
+                self.gpure, self.ret = o, t
+                ps = " ".join("(v_%s : %s)" % (n, coq_type(tt)) for n, tt in self.params.items())
+                args = " ".join("v_" + n for n in self.params)
+                return ("(* %s%s, lines %d-%d: a single return; value and the condition under which it does not raise *)\nDefinition %s_val %s : %s := %s.\nDefinition %s_ok %s : bool := %s.\n"
+                        "Definition %s %s : fres %s := if %s_ok %s then FRet (%s_val %s) else F%s." % (
+                            (self.cls + "." if self.cls else ""), self.name, self.node.lineno, self.node.end_lineno, self.coq, ps, coq_type(t), c,
+                            self.coq, ps, " && ".join(gb for gb, _ in g), self.coq, ps, coq_type(t), self.coq, args, self.coq, args, o))
+        return AppFn.emit(self)
+
+
+class OptTranslator(AppTranslator):
+    WANT = [("PauliString", "get_anti_commutants", "PauliString", "generators", [("some", "default", "py_O_PS_get_anti_commutants_in")], "default"),
+            ("PauliStringCollection", "get_anticommutation_pair", "PauliStringCollection", None, [(None, "default", "py_O_C_get_anticommutation_pair")], "default"),
+            ("PauliStringCollection", "list_connections", "PauliStringCollection", None, [(None, "default", "py_O_C_list_connections")], "default"),
+            ("PauliStringCollection", "_get_delta", "PauliStringCollection", None, [(None, "default", "py_O_C_get_delta")], "default"),
+            ("PauliStringCollection", "find_generators_with_connection", "PauliStringCollection", None, [(None, "default", "py_O_C_find_generators_with_connection")], "default")]
+    FN = OptFn
+    def __init__(self, repo):
+        AppTranslator.__init__(self, repo)
+        def body_of(n):
+            return [ast.unparse(x) for x in n.body if not (isinstance(x, ast.Expr) and isinstance(x.value, ast.Constant))]
+        for name, want in (("copy", ["return PauliStringCollection(self.generators)"]),
+                           ("contract", ["self.replace(pauli_string, pauli_string @ contracted_pauli_string)"]),
+                           ("get_canonic_vertices", ["return PauliStringCollection(self.get_class().get_vertices())"])):
+            if name not in self.cdefs or body_of(self.cdefs[name]) != want:
+                raise Unsupported("pinned source of PauliStringCollection.%s changed" % name)
+        coll = ast.parse(open(os.path.join(repo, "src", "paulie", "common", "pauli_string_collection.py"), newline=None, encoding="utf-8-sig").read())
+        if "from random import randint" not in [ast.unparse(n) for n in coll.body if isinstance(n, ast.ImportFrom)]:
+            raise Unsupported("randint is no longer random.randint")
+    HEADER_EXTRA = ["Definition coll_contract (l : list pstr) (x y : pstr) : list pstr := gens (fst (step true {| gens := l; cache := None |} (Contract x y)))."]
+
+
 def main():
     repo, dst = sys.argv[1], sys.argv[2]
     which = sys.argv[3] if len(sys.argv) > 3 else "classification"
-    path = os.path.join(repo, "src", "paulie", {"classification": "classifier/classification.py", "compiler": "application/pauli_compiler.py", "pstring": "common/pauli_string_bitarray.py", "collection": "common/pauli_string_collection.py", "parser": "common/pauli_string_parser.py", "table": "common/two_local_generators.py", "apps": "application/otoc.py", "linear": "common/pauli_string_linear.py"}[which])
+    path = os.path.join(repo, "src", "paulie", {"classification": "classifier/classification.py", "compiler": "application/pauli_compiler.py", "pstring": "common/pauli_string_bitarray.py", "collection": "common/pauli_string_collection.py", "parser": "common/pauli_string_parser.py", "table": "common/two_local_generators.py", "apps": "application/otoc.py", "linear": "common/pauli_string_linear.py", "optimiser": "common/pauli_string_collection.py"}[which])
     try:
-        text = Translator(path).run() if which == "classification" else (CompTranslator(repo).run() if which == "compiler" else (PSTranslator(repo).run() if which == "pstring" else (CollTranslator(repo).run() if which == "collection" else (ParserTranslator(repo).run() if which == "parser" else (AppTranslator(repo).run() if which == "apps" else (LinTranslator(repo).run() if which == "linear" else TableTranslator(repo).run()))))))
+        text = Translator(path).run() if which == "classification" else (CompTranslator(repo).run() if which == "compiler" else (PSTranslator(repo).run() if which == "pstring" else (CollTranslator(repo).run() if which == "collection" else (ParserTranslator(repo).run() if which == "parser" else (AppTranslator(repo).run() if which == "apps" else (LinTranslator(repo).run() if which == "linear" else (OptTranslator(repo).run() if which == "optimiser" else TableTranslator(repo).run())))))))
     except Unsupported as e:
         print("py2coq: cannot translate %s: %s" % ("common/get_graph.py, application/otoc.py, fourpoint.py, charges.py or the graph methods of the collection" if which == "apps" else path, e)); sys.exit(3)
     with open(dst, "w") as f:
